@@ -26,7 +26,7 @@ func init() {
 			if err := json.Unmarshal([]byte(line), &c); err != nil {
 				core.Fatalf("bad statement case: %v", err)
 			}
-			want := gram.Norm(c.Tree).(map[string]any)
+			want := gram.EmptyAsNil(gram.Norm(c.Tree)).(map[string]any)
 			lays := []int{i % 4}
 			if tier == "thorough" || c.Name != "select" {
 				lays = []int{0, 1, 2, 3}
